@@ -2,7 +2,10 @@
 //! msimc — bounded-exhaustive model checking of rust-msi properties C01..C20.
 //! Usage: msimc <ID> <quick|thorough> | msimc replay <file> | msimc selftest
 
+mod c06;
+mod c07;
 mod c10;
+mod c12;
 mod c13;
 mod c14;
 mod c17;
@@ -47,6 +50,9 @@ fn run(args: &[String]) -> i32 {
             let r = &doc["replay"];
             match doc["property"].as_str().unwrap_or("") {
                 "C13" => c13::replay(r),
+                "C07" => c07::replay(r),
+                "C12" => c12::replay(r),
+                "C06" => c06::replay(r),
                 "C10" if r["kind"] == "c10-case" => c10::replay(r),
                 "C14" => c14::replay(r),
                 "C17" => c17::replay(r),
@@ -78,6 +84,9 @@ fn run(args: &[String]) -> i32 {
                 "C08" => e1checks::run_c08(tier),
                 "C11" => e1checks::run_c11(tier),
                 "C10" => c10::run(tier),
+                "C07" => c07::run(tier),
+                "C12" => c12::run(tier),
+                "C06" => c06::run(tier),
                 _ => {
                     eprintln!("unknown check {}", id);
                     2
